@@ -782,6 +782,11 @@ struct Runner<'a, D: KvDatabase, F: Fam> {
     checks: u64,
     findings: Vec<Value>,
     drift: Vec<Value>,
+    /// padding: this many writes to two columns outside the model are put into a serialization buffer
+    /// in front of every buffered operation (long buffers with interleaved columns; the model's
+    /// operations keep their relative order)
+    pad: usize,
+    pad_seq: u64,
     _f: std::marker::PhantomData<F>,
 }
 
@@ -966,7 +971,17 @@ impl<D: KvDatabase, F: Fam> Runner<'_, D, F> {
                     apply_real::<F, _>(&mut Wb(b), &op);
                     s.push(sh);
                 } else {
+                    let (pad, mut seq) = (self.pad, self.pad_seq);
                     let (b, s) = self.bufs[h].as_mut().expect("open buffer");
+                    for i in 0..pad {
+                        seq += 1;
+                        match i % 3 {
+                            0 => b.put::<ProbeCol, ProbeVal>(&(seq % 97), &ProbeVal(seq, vec![])),
+                            1 => b.insert_member::<PadSet>(&(seq % 89), &seq),
+                            _ => b.delete_member::<PadSet>(&(seq % 89), &(seq - 1)),
+                        }
+                    }
+                    self.pad_seq = seq;
                     apply_real::<F, _>(&mut Sb(b), &op);
                     s.push(sh);
                 }
@@ -1079,6 +1094,8 @@ fn run_case<D: KvDatabase, F: Fam>(be: Backend, open: &dyn Fn() -> D, case: &Val
         checks: 0,
         findings: vec![],
         drift: vec![],
+        pad: case["pad"].as_u64().unwrap_or(0) as usize,
+        pad_seq: 0,
         _f: std::marker::PhantomData,
     };
     assert!(r.nk <= F::NK && r.nv <= F::NV && r.ne <= F::NE, "family {} too small for the case", F::NAME);
@@ -1302,6 +1319,15 @@ impl WideColumn for ProbeCol {
     type Key = u64;
     fn discriminant_encoding() -> DiscriminantEncoding { DiscriminantEncoding::Prefixed }
 }
+/// set column outside the model (padding of serialization buffers)
+#[derive(Debug, Clone, Copy, PartialEq, Eq, Hash, Identifiable)]
+#[stable_type_id_crate(qbice_stable_type_id)]
+pub struct PadSet;
+impl KeyOfSetColumn for PadSet {
+    type Key = u64;
+    type Element = u64;
+}
+
 #[derive(Debug, Clone, PartialEq, Eq, Encode, Decode)]
 #[serialize_crate(qbice_serialize)]
 struct ProbeVal(u64, Vec<u8>);
